@@ -282,7 +282,8 @@ class FactoredJacobianDict:
 
     def compose(self, J: JacobianDict):
         """Returns = -H_U^{-1} @ J"""
-        Jsub = J[[o for o in self.targets if o in J.outputs]].pack(self.T)
+        # targets absent from J are zero blocks: keep a row block for every target so that Jsub conforms with H_U
+        Jsub = JacobianDict({o: J.nesteddict.get(o, {}) for o in self.targets}, self.targets, J.inputs, T=self.T).pack(self.T)
         out = -factored_solve(self.H_U_factored, Jsub) 
         return JacobianDict.unpack(out, self.unknowns, J.inputs, self.T)
 
